@@ -2,7 +2,7 @@
 
 use crate::error::JsError;
 use crate::gc::{Gc, Guard};
-use crate::interpreter::Interpreter;
+use crate::interpreter::{Interpreter, NativeStackLimit};
 use crate::parser::Parser;
 use crate::prelude::{
     String, ToString, Vec, format, index_map_with_capacity, index_set_with_capacity,
@@ -589,7 +589,8 @@ pub fn global_structured_clone(
     let guard = interp.heap.create_guard();
 
     // Clone the value
-    let cloned = structured_clone_internal(interp, &guard, &value)?;
+    let limit = interp.native_stack_limit();
+    let cloned = structured_clone_internal(interp, &guard, &value, limit)?;
 
     Ok(Guarded::with_guard(cloned, guard))
 }
@@ -599,6 +600,7 @@ fn structured_clone_internal(
     interp: &mut Interpreter,
     guard: &Guard<JsObject>,
     value: &JsValue,
+    limit: NativeStackLimit,
 ) -> Result<JsValue, JsError> {
     match value {
         // Primitives are returned as-is (they're value types)
@@ -614,7 +616,7 @@ fn structured_clone_internal(
         )),
 
         // Objects require deep cloning
-        JsValue::Object(obj) => clone_object(interp, guard, obj),
+        JsValue::Object(obj) => clone_object(interp, guard, obj, limit),
     }
 }
 
@@ -623,7 +625,11 @@ fn clone_object(
     interp: &mut Interpreter,
     guard: &Guard<JsObject>,
     obj: &Gc<JsObject>,
+    limit: NativeStackLimit,
 ) -> Result<JsValue, JsError> {
+    // One native frame per nesting level: values nested too deeply (or containing themselves)
+    // are an error, not a native stack overflow
+    limit.check()?;
     let obj_ref = obj.borrow();
 
     // Check the exotic type
@@ -656,7 +662,7 @@ fn clone_object(
 
             let mut cloned_elements = Vec::with_capacity(elements_to_clone.len());
             for elem in &elements_to_clone {
-                cloned_elements.push(structured_clone_internal(interp, guard, elem)?);
+                cloned_elements.push(structured_clone_internal(interp, guard, elem, limit)?);
             }
 
             let arr = interp.create_array_from(guard, cloned_elements);
@@ -673,8 +679,8 @@ fn clone_object(
 
             let mut cloned_entries = index_map_with_capacity(entries_to_clone.len());
             for (key, val) in &entries_to_clone {
-                let cloned_key = structured_clone_internal(interp, guard, key)?;
-                let cloned_val = structured_clone_internal(interp, guard, val)?;
+                let cloned_key = structured_clone_internal(interp, guard, key, limit)?;
+                let cloned_val = structured_clone_internal(interp, guard, val, limit)?;
                 cloned_entries.insert(JsMapKey(cloned_key), cloned_val);
             }
 
@@ -696,7 +702,9 @@ fn clone_object(
 
             let mut cloned_entries = index_set_with_capacity(entries_to_clone.len());
             for entry in &entries_to_clone {
-                cloned_entries.insert(JsMapKey(structured_clone_internal(interp, guard, entry)?));
+                cloned_entries.insert(JsMapKey(structured_clone_internal(
+                    interp, guard, entry, limit,
+                )?));
             }
 
             let set_obj = interp.create_object(guard);
@@ -856,7 +864,7 @@ fn clone_object(
 
             // Clone each property
             for (key, value) in &props_to_clone {
-                let cloned_value = structured_clone_internal(interp, guard, value)?;
+                let cloned_value = structured_clone_internal(interp, guard, value, limit)?;
                 cloned_obj
                     .borrow_mut()
                     .set_property(key.clone(), cloned_value);
